@@ -222,6 +222,13 @@ class ProbeKernel(ModelMixin, TransitionMixin, TuningMixin):
         return WarmupOutcome(jnp.asarray(0, jnp.int32), ks)
 
 
+class ProbeKernelB(ProbeKernel):
+    """Same behaviour, different class and different documented messages (so that a message taken
+    from another kernel's error book is visible)."""
+
+    error_book = {0: "no errors", 1: "B: first problem", 2: "B: second problem", 3: "B: third problem"}
+
+
 def decode_log(ilog: np.ndarray, seq: int) -> list[dict]:
     """Turn one chain's log array into a list of event dicts ordered by seq."""
     out = []
